@@ -1,5 +1,21 @@
-//! p0f reference renderer: expected observable computed from the structured frame description (never from bytes).
+//! p0f reference renderer: the observable a TCP segment's header fields define under the p0f signature
+//! language, computed from the structured frame description (never from bytes).
+//!
+//! `Sw` are *defect switches*: with all of them off this is the specification. Each switch reproduces one
+//! recorded defect of the implementation, so that a deviation can be attributed to a known finding only when
+//! the observation equals the reference with exactly that switch on.
 use crate::gen::pkt::*;
+
+#[derive(Debug, Clone, Copy, PartialEq, Default)]
+pub struct Sw {
+    /// the option walk does not stop at the end-of-options marker: padding bytes are parsed as options
+    pub eol_continues: bool,
+    /// MTU = MSS + actual IP header + TCP option bytes instead of MSS + minimal headers
+    pub mtu_actual_headers: bool,
+    /// every valid non-SYN segment is rendered as a server (SYN+ACK) signature
+    pub non_syn_is_server: bool,
+}
+
 #[derive(Debug, Clone, PartialEq)]
 pub struct Expected {
     pub role: Role,
@@ -7,89 +23,332 @@ pub struct Expected {
     pub ittl: String,
     pub olen: u8,
     pub mss: Option<u16>,
-    pub wsize: String,
+    /// every window rendering the field definitions allow (the "MTU multiple" rule has more than one reading)
+    pub wsize: Vec<String>,
     pub wscale: Option<u8>,
     pub olayout: Vec<String>,
-    pub quirks: Vec<&'static str>, // canonical p0f order
+    /// as a set (sorted, deduplicated)
+    pub quirks: Vec<&'static str>,
     pub pclass: char,
     pub mtu: Option<u16>,
     pub malformed: bool,
+    pub has_eol_with_tail: bool,
 }
 #[derive(Debug, Clone, Copy, PartialEq)]
-pub enum Role { Client, Server, None, Error }
+pub enum Role {
+    Client,
+    Server,
+    /// a valid segment that is not part of a handshake: neither signature
+    None,
+    /// invalid flag combination or fragment: an error / no result
+    Error,
+}
 
 pub fn ref_ttl(ttl: u8) -> String {
-    if ttl == 0 { return "0-".into(); }
-    let init: u16 = if ttl > 128 { 255 } else if ttl > 64 { 128 } else if ttl > 32 { 64 } else { 32 };
+    if ttl == 0 {
+        return "0-".into();
+    }
+    let init: u16 = if ttl > 128 {
+        255
+    } else if ttl > 64 {
+        128
+    } else if ttl > 32 {
+        64
+    } else {
+        32
+    };
     let d = init - ttl as u16;
-    if d <= 30 { format!("{}+{}", ttl, d) } else { format!("{}", ttl) }
+    if d <= 30 {
+        format!("{}+{}", ttl, d)
+    } else {
+        format!("{}", ttl)
+    }
 }
 
-pub fn ref_window(win: u16, mss: Option<u16>, ip_hdr_len: u16, has_ts: bool, v6: bool) -> String {
+/// Window classification priority: MSS multiple (also timestamp-adjusted), largest power-of-two modulus
+/// 4096..256, MTU multiples (1500, 1500-minimal headers, timestamp-adjusted, MSS + headers), raw.
+/// `hdr_candidates`: header sizes accepted for the "MSS + headers" reading.
+pub fn ref_window(win: u16, mss: Option<u16>, has_ts: bool, v6: bool, hdr_candidates: &[u16]) -> Vec<String> {
     let m = mss.unwrap_or(0);
-    if win == 0 || m < 100 { return format!("{win}"); }
-    let try_div = |d: u16| -> Option<u16> { if d != 0 && win % d == 0 && win / d <= 255 { Some(win / d) } else { None } };
-    if let Some(n) = try_div(m) { return format!("mss*{n}"); }
-    if has_ts && m > 12 { if let Some(n) = try_div(m - 12) { return format!("mss*{n}"); } }
-    for md in [4096u16, 2048, 1024, 512, 256] { if win % md == 0 { return format!("%{md}"); } }
-    if let Some(n) = try_div(1500) { return format!("mtu*{n}"); }
+    if win == 0 || m < 100 {
+        return vec![format!("{win}")];
+    }
+    let try_div = |d: u16| -> Option<u16> {
+        if d != 0 && win % d == 0 && win / d <= 255 {
+            Some(win / d)
+        } else {
+            None
+        }
+    };
+    if let Some(n) = try_div(m) {
+        return vec![format!("mss*{n}")];
+    }
+    if has_ts && m > 12 {
+        if let Some(n) = try_div(m - 12) {
+            return vec![format!("mss*{n}")];
+        }
+    }
+    for md in [4096u16, 2048, 1024, 512, 256] {
+        if win % md == 0 {
+            return vec![format!("%{md}")];
+        }
+    }
+    if let Some(n) = try_div(1500) {
+        return vec![format!("mtu*{n}")];
+    }
     let min = if v6 { 60 } else { 40 };
-    if let Some(n) = try_div(1500 - min) { return format!("mtu*{n}"); }
-    if has_ts { if let Some(n) = try_div(1500 - min - 12) { return format!("mtu*{n}"); } }
-    let _ = ip_hdr_len;
-    if let Some(n) = try_div(m.saturating_add(min)) { return format!("mtu*{n}"); }
-    format!("{win}")
+    if let Some(n) = try_div(1500 - min) {
+        return vec![format!("mtu*{n}")];
+    }
+    if has_ts {
+        if let Some(n) = try_div(1500 - min - 12) {
+            return vec![format!("mtu*{n}")];
+        }
+    }
+    let mut out = vec![];
+    for h in hdr_candidates {
+        let s = match try_div(m.saturating_add(*h)) {
+            Some(n) => format!("mtu*{n}"),
+            None => format!("{win}"),
+        };
+        if !out.contains(&s) {
+            out.push(s);
+        }
+    }
+    if out.is_empty() {
+        out.push(format!("{win}"));
+    }
+    out
 }
 
-pub fn reference(s: &Spec) -> Expected {
+struct Opts {
+    layout: Vec<String>,
+    mss: Option<u16>,
+    ws: Option<u8>,
+    has_ts: bool,
+    ts1z: bool,
+    ts2nz: bool,
+    optplus: bool,
+    exws: bool,
+    malformed: bool,
+    eol_tail: bool,
+}
+
+/// the specification: walk until EOL (padding counted, `opt+` if non-zero) or a malformed option (`bad`);
+/// with `eol_continues` (defect switch) the marker does not end the walk
+fn walk_options(o: &[u8], tcp_type: u8, eol_continues: bool) -> Opts {
+    let mut r = Opts { layout: vec![], mss: None, ws: None, has_ts: false, ts1z: false, ts2nz: false, optplus: false, exws: false, malformed: false, eol_tail: false };
+    let mut i = 0;
+    while i < o.len() {
+        let k = o[i];
+        if k == 0 {
+            let rest = &o[i + 1..];
+            r.layout.push(format!("eol+{}", rest.len()));
+            r.eol_tail = r.eol_tail || !rest.is_empty();
+            if rest.iter().any(|&b| b != 0) {
+                r.optplus = true;
+            }
+            if eol_continues {
+                i += 1;
+                continue;
+            }
+            break;
+        }
+        if k == 1 {
+            r.layout.push("nop".into());
+            i += 1;
+            continue;
+        }
+        if i + 1 >= o.len() {
+            r.malformed = true;
+            break;
+        }
+        let l = o[i + 1] as usize;
+        if l < 2 || i + l > o.len() {
+            r.malformed = true;
+            break;
+        }
+        let d = &o[i + 2..i + l];
+        match k {
+            2 => {
+                r.layout.push("mss".into());
+                if l != 4 {
+                    r.malformed = true;
+                }
+                if d.len() >= 2 {
+                    r.mss = Some(u16::from_be_bytes([d[0], d[1]]));
+                }
+            }
+            3 => {
+                r.layout.push("ws".into());
+                if l != 3 {
+                    r.malformed = true;
+                }
+                if !d.is_empty() {
+                    r.ws = Some(d[0]);
+                    if d[0] > 14 {
+                        r.exws = true;
+                    }
+                }
+            }
+            4 => {
+                r.layout.push("sok".into());
+                if l != 2 {
+                    r.malformed = true;
+                }
+            }
+            5 => {
+                r.layout.push("sack".into());
+                if !(10..=34).contains(&l) {
+                    r.malformed = true;
+                }
+            }
+            8 => {
+                r.layout.push("ts".into());
+                r.has_ts = true;
+                if l != 10 {
+                    r.malformed = true;
+                }
+                if d.len() >= 4 && u32::from_be_bytes([d[0], d[1], d[2], d[3]]) == 0 {
+                    r.ts1z = true;
+                }
+                if d.len() >= 8 && tcp_type == SYN && u32::from_be_bytes([d[4], d[5], d[6], d[7]]) != 0 {
+                    r.ts2nz = true;
+                }
+            }
+            _ => r.layout.push(format!("?{k}")),
+        }
+        i += l;
+    }
+    r
+}
+
+pub fn reference(s: &Spec, sw: Sw) -> Expected {
     let f = s.flags;
     let tcp_type = f & (SYN | ACK | FIN | RST);
     let invalid = ((f & SYN) != 0 && (f & (FIN | RST)) != 0) || (f & (FIN | RST)) == (FIN | RST) || tcp_type == 0;
     let fragment = !s.v6 && (s.frag_off > 0 || s.mf);
-    let role = if invalid || fragment { Role::Error } else if f & SYN != 0 && f & ACK == 0 { Role::Client } else if f & SYN != 0 { Role::Server } else { Role::None };
+    let role = if invalid || fragment {
+        Role::Error
+    } else if f & SYN != 0 && f & ACK == 0 {
+        Role::Client
+    } else if f & SYN != 0 || sw.non_syn_is_server {
+        Role::Server
+    } else {
+        Role::None
+    };
     let mut q: Vec<&'static str> = vec![];
     if !s.v6 {
-        if s.df { q.push("df"); if s.id != 0 { q.push("id+"); } } else if s.id == 0 { q.push("id-"); }
-    }
-    let mut ecn = s.ecn & 3 != 0;
-    if f & (ECE | CWR) != 0 { ecn = true; }
-    if ecn { q.push("ecn"); }
-    if !s.v6 && s.res { q.push("0+"); }
-    if s.v6 && s.flow & 0xFFFFF != 0 { q.push("flow"); }
-    if s.seq == 0 { q.push("seq-"); }
-    if f & ACK != 0 { if s.ack == 0 { q.push("ack-"); } } else if s.ack != 0 && f & RST == 0 { q.push("ack+"); }
-    if f & URG != 0 { q.push("urgf+"); } else if s.urg != 0 { q.push("uptr+"); }
-    if f & PSH != 0 { q.push("pushf+"); }
-    // options
-    let mut layout = vec![]; let mut mss = None; let mut ws = None; let mut malformed = false;
-    let mut ts1z = false; let mut ts2nz = false; let mut optplus = false; let mut exws = false; let mut has_ts = false;
-    let o = &s.opts; let mut i = 0;
-    while i < o.len() {
-        let k = o[i];
-        if k == 0 { let rest = &o[i + 1..]; layout.push(format!("eol+{}", rest.len())); if rest.iter().any(|&b| b != 0) { optplus = true; } break; }
-        if k == 1 { layout.push("nop".into()); i += 1; continue; }
-        if i + 1 >= o.len() { malformed = true; break; }
-        let l = o[i + 1] as usize;
-        if l < 2 || i + l > o.len() { malformed = true; break; }
-        let d = &o[i + 2..i + l];
-        match k {
-            2 => { layout.push("mss".into()); if l != 4 { malformed = true; } if d.len() >= 2 { mss = Some(u16::from_be_bytes([d[0], d[1]])); } }
-            3 => { layout.push("ws".into()); if l != 3 { malformed = true; } if !d.is_empty() { ws = Some(d[0]); if d[0] > 14 { exws = true; } } }
-            4 => { layout.push("sok".into()); if l != 2 { malformed = true; } }
-            5 => { layout.push("sack".into()); if !(10..=34).contains(&l) { malformed = true; } }
-            8 => { layout.push("ts".into()); has_ts = true; if l != 10 { malformed = true; }
-                if d.len() >= 4 && u32::from_be_bytes([d[0], d[1], d[2], d[3]]) == 0 { ts1z = true; }
-                if d.len() >= 8 && tcp_type == SYN && u32::from_be_bytes([d[4], d[5], d[6], d[7]]) != 0 { ts2nz = true; } }
-            _ => layout.push(format!("?{k}")),
+        if s.df {
+            q.push("df");
+            if s.id != 0 {
+                q.push("id+");
+            }
+        } else if s.id == 0 {
+            q.push("id-");
         }
-        i += l;
     }
-    if ts1z { q.push("ts1-"); } if ts2nz { q.push("ts2+"); } if optplus { q.push("opt+"); } if exws { q.push("exws"); } if malformed { q.push("bad"); }
-    let ip_hdr = if s.v6 { 40 } else { (5 + s.ip_opt_words as u16) * 4 };
+    if s.ecn & 3 != 0 || f & (ECE | CWR) != 0 {
+        q.push("ecn");
+    }
+    if !s.v6 && s.res {
+        q.push("0+");
+    }
+    if s.v6 && s.flow & 0xFFFFF != 0 {
+        q.push("flow");
+    }
+    if s.seq == 0 {
+        q.push("seq-");
+    }
+    if f & ACK != 0 {
+        if s.ack == 0 {
+            q.push("ack-");
+        }
+    } else if s.ack != 0 && f & RST == 0 {
+        q.push("ack+");
+    }
+    if f & URG != 0 {
+        q.push("urgf+");
+    } else if s.urg != 0 {
+        q.push("uptr+");
+    }
+    if f & PSH != 0 {
+        q.push("pushf+");
+    }
+    let strict = walk_options(&s.opts, tcp_type, false);
+    let o = walk_options(&s.opts, tcp_type, sw.eol_continues);
+    if o.ts1z {
+        q.push("ts1-");
+    }
+    if o.ts2nz {
+        q.push("ts2+");
+    }
+    if o.optplus {
+        q.push("opt+");
+    }
+    if o.exws {
+        q.push("exws");
+    }
+    if o.malformed {
+        q.push("bad");
+    }
+    q.sort();
+    q.dedup();
+    let ip_hdr: u16 = if s.v6 { 40 } else { (5 + s.ip_opt_words as u16) * 4 };
+    let min: u16 = if s.v6 { 60 } else { 40 };
+    // accepted readings of "MSS + headers": minimal headers, actual IP header + minimal TCP header,
+    // actual IP header + actual TCP header
+    let hdrs = [min, ip_hdr + 20, ip_hdr + 20 + s.opts.len() as u16];
+    let mtu = if f & SYN != 0 && f & ACK == 0 && role == Role::Client {
+        o.mss.map(|m| if sw.mtu_actual_headers { m.saturating_add(ip_hdr).saturating_add(s.opts.len() as u16) } else { m.saturating_add(min) })
+    } else {
+        None
+    };
     Expected {
-        role, ver: if s.v6 { '6' } else { '4' }, ittl: ref_ttl(s.ttl), olen: if s.v6 { 0 } else { s.ip_opt_words * 4 }, mss,
-        wsize: ref_window(s.window, mss, ip_hdr, has_ts, s.v6), wscale: ws, olayout: layout, quirks: q,
+        role,
+        ver: if s.v6 { '6' } else { '4' },
+        ittl: ref_ttl(s.ttl),
+        olen: if s.v6 { 0 } else { s.ip_opt_words * 4 },
+        mss: o.mss,
+        wsize: ref_window(s.window, o.mss, o.has_ts, s.v6, &hdrs),
+        wscale: o.ws,
+        olayout: o.layout,
+        quirks: q,
         pclass: if s.payload.is_empty() { '0' } else { '+' },
-        mtu: if role == Role::Client { mss.map(|m| m.saturating_add(if s.v6 { 60 } else { 40 })) } else { None }, malformed,
+        mtu,
+        malformed: strict.malformed,
+        has_eol_with_tail: strict.eol_tail,
     }
+}
+
+/// render the expected signature text(s) `ver:ittl:olen:mss:wsize,scale:olayout:quirks:pclass` with quirks as a sorted set
+pub fn render(e: &Expected) -> Vec<String> {
+    e.wsize
+        .iter()
+        .map(|w| {
+            format!(
+                "{}:{}:{}:{}:{},{}:{}:{}:{}",
+                e.ver,
+                e.ittl,
+                e.olen,
+                e.mss.map(|m| m.to_string()).unwrap_or("*".into()),
+                w,
+                e.wscale.map(|m| m.to_string()).unwrap_or("*".into()),
+                e.olayout.join(","),
+                e.quirks.join(","),
+                e.pclass
+            )
+        })
+        .collect()
+}
+/// normalise an observed signature text: quirks sorted and deduplicated
+pub fn normalise(sig: &str) -> String {
+    let p: Vec<&str> = sig.split(':').collect();
+    if p.len() != 8 {
+        return sig.to_string();
+    }
+    let mut q: Vec<&str> = p[6].split(',').filter(|x| !x.is_empty()).collect();
+    q.sort();
+    q.dedup();
+    format!("{}:{}:{}:{}:{}:{}:{}:{}", p[0], p[1], p[2], p[3], p[4], p[5], q.join(","), p[7])
 }
